@@ -1,4 +1,4 @@
 --------------------------- MODULE MCRegistryTrace ---------------------------
 EXTENDS TraceRegistry
-NameOfDef == [o \in {1, 2, 3, 4, 5} |-> CASE o \in {1, 2} -> "shared" [] o = 3 -> "own" [] OTHER -> "plain"]
+NameOfDef == [o \in {1, 2, 3, 4, 5, 6, 7} |-> CASE o \in {1, 2} -> "shared" [] o = 3 -> "own" [] o \in {6, 7} -> "zname" [] OTHER -> "plain"]
 =============================================================================
